@@ -290,3 +290,36 @@ package limiter
 //@   ensures[C02] listener_iff_ok: ret1 <==> ret0 != nil
 //@   ensures[C02] follows_tryAcquire: ncalls("(*limiter.QueueBlockingLimiter).tryAcquire") == 1 && (ret1 <==> callres("(*limiter.QueueBlockingLimiter).tryAcquire", 0, 0) != nil)
 //@   ensures[C02,C10] wraps_delegate_listener: ret1 ==> dyntype(ret0, "*limiter.QueueBlockingListener") && as(ret0, "*limiter.QueueBlockingListener").delegateListener == callres("(*limiter.QueueBlockingLimiter).tryAcquire", 0, 0) && as(ret0, "*limiter.QueueBlockingListener").limiter == l
+
+// ---------------------------------------------------------------------------------------------
+// Construction and wiring of queue limiters (C11, C12, C13, C20)
+//@ type QueueLimiterConfig
+
+//@ func (*QueueLimiterConfig).ApplyDefaults
+//@   ensures[C11] ordering_default: c.Ordering == ite(old(c.Ordering) == "", "lifo", old(c.Ordering))
+//@   ensures[C12] size_default: c.MaxBacklogSize == ite(old(c.MaxBacklogSize) <= 0, 100, old(c.MaxBacklogSize))
+//@   ensures[C13] timeout_default: c.MaxBacklogTimeout == ite(old(c.MaxBacklogTimeout) == 0, 1000000000, old(c.MaxBacklogTimeout))
+//@   ensures[C20] registry_default: c.MetricRegistry != nil && (old(c.MetricRegistry) != nil ==> c.MetricRegistry == old(c.MetricRegistry))
+//@   ensures[C13] evict_flag_kept: c.BacklogEvictDoneCtx == old(c.BacklogEvictDoneCtx)
+
+//@ func NewQueueBlockingLimiterFromConfig
+//@   ensures[C11] ordering_wired: result != nil && result.backlog != nil && result.backlog.ordering == ite(config.Ordering == "", "lifo", config.Ordering)
+//@   ensures[C12] bound_wired: result.maxBacklogSize == uint64(ite(config.MaxBacklogSize <= 0, 100, config.MaxBacklogSize))
+//@   ensures[C13] timeout_wired: result.maxBacklogTimeout == ite(config.MaxBacklogTimeout == 0, 1000000000, config.MaxBacklogTimeout) && result.backlogEvictDoneCtx == config.BacklogEvictDoneCtx
+//@   ensures[C02,C19] delegate_wired: result.delegate == delegate
+//@   ensures[C12] empty_backlog: result.backlog.list != nil && llen(result.backlog.list) == 0 && fresh(result.backlog) && fresh(result)
+//@   ensures[C12,C20] size_gauge_reads_the_backlog: ncalls("core.MetricRegistry.RegisterGauge") == 2 && callarg("core.MetricRegistry.RegisterGauge", 1, 0) == "queue_size" && isfunc(callarg("core.MetricRegistry.RegisterGauge", 1, 1), "core.NewUint64MetricSupplierWrapper$1") && isfunc(*captured(callarg("core.MetricRegistry.RegisterGauge", 1, 1), "core.NewUint64MetricSupplierWrapper$1", 0), "(*limiter.queue).len$bound") && captured(*captured(callarg("core.MetricRegistry.RegisterGauge", 1, 1), "core.NewUint64MetricSupplierWrapper$1", 0), "(*limiter.queue).len$bound", 0) == result.backlog
+//@   ensures[C20] limit_gauge: callarg("core.MetricRegistry.RegisterGauge", 0, 0) == "queue_limit"
+
+//@ func NewQueueBlockingLimiterWithDefaults
+//@   ensures[C11] lifo_by_default: result != nil && result.backlog != nil && result.backlog.ordering == "lifo" && result.delegate == delegate && result.maxBacklogSize == 100 && result.maxBacklogTimeout == 1000000000
+
+//@ func NewFifoBlockingLimiter
+//@   ensures[C11] fifo: result != nil && result.QueueBlockingLimiter != nil && result.QueueBlockingLimiter.backlog.ordering == "fifo" && result.QueueBlockingLimiter.delegate == delegate
+//@   ensures[C12,C13] sizes: result.QueueBlockingLimiter.maxBacklogSize == uint64(ite(maxBacklogSize <= 0, 100, maxBacklogSize)) && result.QueueBlockingLimiter.maxBacklogTimeout == ite(maxBacklogTimeout == 0, 1000000000, maxBacklogTimeout)
+//@ func NewFifoBlockingLimiterWithDefaults
+//@   ensures[C11] fifo: result != nil && result.QueueBlockingLimiter != nil && result.QueueBlockingLimiter.backlog.ordering == "fifo" && result.QueueBlockingLimiter.delegate == delegate
+//@ func NewLifoBlockingLimiter
+//@   ensures[C11] lifo: result != nil && result.QueueBlockingLimiter != nil && result.QueueBlockingLimiter.backlog.ordering == "lifo" && result.QueueBlockingLimiter.delegate == delegate
+//@ func NewLifoBlockingLimiterWithDefaults
+//@   ensures[C11] lifo: result != nil && result.QueueBlockingLimiter != nil && result.QueueBlockingLimiter.backlog.ordering == "lifo" && result.QueueBlockingLimiter.delegate == delegate
